@@ -421,7 +421,14 @@ func runUC[V any](c ucCase, ue ucElem[V]) (res core.Result) {
 			panic(core.HarnessError{Msg: "harness source does not parse: " + source + " " + lib.Short(payload)})
 		}
 		wantArr = parsed.(interface{ AsArray() []any }).AsArray()
-		if c.Kind == "Set" {
+		if c.Kind == "Set" && c.SrcCtx == "Set" {
+			// the source denotes a Set: the constructor returns what the parser returns, member by member -- and
+			// what the class-level constructor makes of the values the source lists
+			ref := col.Set[V](n).MakeFromArray(vals)
+			if !sameSeq(ref.AsArray(), wantArr) {
+				return fail("parsed-set-differs-from-class-level", "ParseSource gives %v, Set.MakeFromArray of the listed values %v", wantArr, ref.AsArray())
+			}
+		} else if c.Kind == "Set" {
 			// a Set orders and de-duplicates what the source lists: compare with a class-level set of the same values
 			ref := col.Set[V](n).Make()
 			for _, x := range wantArr {
